@@ -35,22 +35,28 @@ type arities struct {
 // differs from the base in position k only, so an implementation that skips a position
 // cannot pass.
 func arityInst[T any](head string, n int, e fp.Eq[T], h fp.Hashable[T], mk func(c []any) T, split func(any) []any, open, sep, close string, kids ...*node) *inst[T] {
-	build := func(def int, set ...int) any {
-		c := make([]any, n)
-		for j := range c {
-			c[j] = kids[j].at(def)
+	mkDom := func() []any {
+		rs := make([]reps, n)
+		for j := range rs {
+			rs[j] = kids[j].freshReps() // fresh storage for every component
 		}
-		for _, k := range set {
-			c[k] = kids[k].at(2)
+		build := func(def int, set ...int) any {
+			c := make([]any, n)
+			for j := range c {
+				c[j] = rs[j].at(def)
+			}
+			for _, k := range set {
+				c[k] = rs[k].at(2)
+			}
+			return mk(c)
 		}
-		return mk(c)
+		dom := []any{build(0), build(1), build(2), build(1, n-1)}
+		for k := 0; k < n; k++ {
+			dom = append(dom, build(0, k))
+		}
+		return dom
 	}
-	dom := []any{build(0), build(1), build(2), build(1, n-1)}
-	for k := 0; k < n; k++ {
-		dom = append(dom, build(0, k))
-	}
-	nd := &node{name: head, head: head, depth: 2, kids: kids, dom: dom, cSize: 4, ref: prodRef(kids, split), show: prodShow(kids, split, open, sep, close), memo: map[string]string{}, known: map[string]bool{}}
-	nd.pickRepresentatives()
+	nd := &node{name: head, head: head, depth: 2, kids: kids, dom: mkDom(), mkDom: mkDom, cSize: 4, ref: prodRef(kids, split), show: prodShow(kids, split, open, sep, close), memo: map[string]string{}, known: map[string]bool{}}
 	return finish(nd, e, h)
 }
 
@@ -181,7 +187,7 @@ func orOK(s string) string {
 
 func main() {
 	mc.Main("C09", func(r *mc.Registry) {
-		r.Rule = "execution = (instance expression, a, b, c, family eq|hash) with a,b,c ranging over the whole value domain of the instance's type (all triples; for the arity blocks in the quick tier c ranges over 4 values, a and b over all n+4 values, one of which differs from the base in position k only, for every k); each execution evaluates Eqv(a,a), Eqv(a,b), Eqv(b,a), Eqv(b,c), Eqv(a,c) and Hash(a) twice, Hash(b) on the library's instance and compares with component-wise equality computed by plain loops; non-trivial = a, b, c are three different domain elements; distinct outcome = (family, instance, equality pattern of the triple)"
+		r.Rule = "execution = (instance expression, a, b, c, family eq|hash) with a,b,c ranging over the whole value domain of the instance's type (all triples; for the arity blocks in the quick tier c ranges over 4 values, a and b over all n+4 values, one of which differs from the base in position k only, for every k); each execution evaluates Eqv(a,a), Eqv(a,b), Eqv(b,a), Eqv(b,c), Eqv(a,c) and Hash(a) twice, Hash(b) on the library's instance and compares with component-wise equality computed by plain loops; the operand domain is built fresh inside every execution; the slice-like carriers (Seq, Slice, Bytes) contain aliasing values — views base[:1], base[:2], base (same start, different lengths) and base[1:] of one array next to an independent copy of base[:2] — and hand (view, copy, longer view) to every enclosing combinator; non-trivial = a, b, c are three different domain elements; distinct outcome = (family, instance, equality pattern of the triple)"
 		r.Assumptions = []string{
 			"NaN is excluded from the float domains (the property excludes it)",
 			"Hash values are free: only determinism and Eqv(a,b) => Hash(a)==Hash(b) are demanded",
